@@ -220,14 +220,17 @@ nni_msgq_aio_put(nni_msgq *mq, nni_aio *aio)
 {
 	nni_mtx_lock(&mq->mq_lock);
 
-	// If this is an instantaneous poll operation, and the queue has
-	// no room, nobody is waiting to receive, then report NNG_ETIMEDOUT.
-	if (!nni_aio_start(aio, nni_msgq_cancel, mq)) {
-		nni_mtx_unlock(&mq->mq_lock);
-		return;
-	}
+	// Try to complete the operation first, so that an instantaneous
+	// poll operation succeeds when there is room or a waiting reader.
+	// Only if it has to wait do we start it (which reports
+	// NNG_ETIMEDOUT at once for a poll operation).
+	nni_aio_reset(aio);
 	nni_aio_list_append(&mq->mq_aio_putq, aio);
 	nni_msgq_run_putq(mq);
+	if (nni_aio_list_active(aio) &&
+	    !nni_aio_start(aio, nni_msgq_cancel, mq)) {
+		nni_aio_list_remove(aio);
+	}
 	nni_msgq_run_notify(mq);
 
 	nni_mtx_unlock(&mq->mq_lock);
@@ -237,13 +240,16 @@ void
 nni_msgq_aio_get(nni_msgq *mq, nni_aio *aio)
 {
 	nni_mtx_lock(&mq->mq_lock);
-	if (!nni_aio_start(aio, nni_msgq_cancel, mq)) {
-		nni_mtx_unlock(&mq->mq_lock);
-		return;
-	}
 
+	// As for put: complete at once if a message is available, and
+	// only start (and possibly time out) the operation if it must wait.
+	nni_aio_reset(aio);
 	nni_aio_list_append(&mq->mq_aio_getq, aio);
 	nni_msgq_run_getq(mq);
+	if (nni_aio_list_active(aio) &&
+	    !nni_aio_start(aio, nni_msgq_cancel, mq)) {
+		nni_aio_list_remove(aio);
+	}
 	nni_msgq_run_notify(mq);
 
 	nni_mtx_unlock(&mq->mq_lock);
